@@ -82,6 +82,13 @@ impl Prop for C14 {
     fn cases(&self, tier: Tier) -> u64 {
         tier.pick(100000, 1000000)
     }
+    fn fuzz_plan(&self, tier: Tier) -> Vec<(&'static str, u64)> {
+        if tier == Tier::Thorough {
+            vec![("prop", 100000_u64)]
+        } else {
+            vec![]
+        }
+    }
     fn choice_len(&self) -> usize {
         128
     }
